@@ -4,6 +4,7 @@ from ..core import U, AnalysisError, parent, enclosing_stmt
 from ..facts import FactMap
 from ..algebra import Poly, C, A
 from .. import headerrules as HR
+from .. import footer as FT
 from .. import tables as TB
 from .. import readerfacts as RF
 from ..layout import Layout
@@ -56,6 +57,7 @@ def run(ctx):
     from .c03 import version_gated_fields
     version_gated_fields(ctx, ht, 'C10.2', select=lambda f: f.module.name == 'cropping')
     check_footer(ctx, ht, 'C10.3', select=lambda f: f.module.name == 'cropping')
+    origin_axes(ctx, ht)
     footer_crop(ctx)
     validation(ctx)
     symbolic(ctx, ht)
@@ -80,6 +82,35 @@ def completeness(ctx, ht):
                      key_extra=str(role))
     check_sizes(ctx, ht, 'C10.1', select=lambda g: g.module.name == 'cropping')
     ctx.floor('C10.1', 9)
+
+
+def origin_axes(ctx, ht):
+    """C10.2: each origin field of the regenerated header receives <axis of the field>[<index range of the same axis>[0]]."""
+    f = ctx.P.func('cropping.SgzCropper.regenerate_header')
+    n = 0
+    for s in ht.stores:
+        if s.func is not f:
+            continue
+        row, prob = ht.row_of(s)
+        role = TB.role_of_row(row) if row is not None else None
+        if role is None or role[0] != 'ORIGIN':
+            continue
+        subs = [x for e2 in FT._def_chain(f, s.value) for x in ast.walk(e2) if isinstance(x, ast.Subscript) and
+                isinstance(x.value, ast.Attribute) and axis_of_text(U(x.value)) in ('IL', 'XL', 'Z') and
+                isinstance(x.slice, ast.Subscript)]
+        if not subs:
+            raise AnalysisError('regenerate_header: origin field %d:%d is not <axis>[<range>[0]]' % (s.lo, s.hi))
+        x = subs[0]
+        n += 1
+        a_arr, a_idx = axis_of_text(U(x.value)), axis_of_text(U(x.slice.value))
+        first = U(x.slice.slice) == '0'
+        if a_arr == role[1] and a_idx == role[1] and first:
+            ctx.ok('C10.2', f, s.stmt, '%s origin = %s axis at the lower bound of the %s range' % (role[1], a_arr, a_idx))
+        else:
+            ctx.fail('C10.2', f, s.stmt, 'the %s origin field receives `%s`: the %s axis indexed with %s of the %s range' % (
+                role[1], U(x)[:50], a_arr, 'the lower bound' if first else 'element ' + U(x.slice.slice), a_idx), key_extra=role[1])
+    if n < 3:
+        raise AnalysisError('regenerate_header: fewer than 3 origin fields found')
 
 
 def footer_crop(ctx):
